@@ -954,6 +954,8 @@ impl OptionsBuilder {
     #[inline(always)]
     #[allow(clippy::if_same_then_else, clippy::needless_bool)] // reason="more logical"
     pub const fn is_valid(&self) -> bool {
+        let min_digits = unwrap_or_zero_usize(self.min_significant_digits);
+        let max_digits = unwrap_or_max_usize(self.max_significant_digits);
         if !is_valid_ascii(self.exponent) {
             false
         } else if !is_valid_ascii(self.decimal_point) {
@@ -961,6 +963,12 @@ impl OptionsBuilder {
         } else if !self.nan_str_is_valid() {
             false
         } else if !self.inf_str_is_valid() {
+            false
+        } else if max_digits < min_digits {
+            false
+        } else if unwrap_or_zero_i32(self.negative_exponent_break) > 0 {
+            false
+        } else if unwrap_or_zero_i32(self.positive_exponent_break) < 0 {
             false
         } else {
             true
